@@ -633,6 +633,52 @@ def apply_and_mapping_order(ctx, rule='A5'):
            'the constructor stores the mapping as given (declaration order = priority order)', '')
 
 
+def _fresh_container(e):
+    """An expression that builds a new list from an existing one (so the result is never the same object)."""
+    if isinstance(e, (ast.List, ast.ListComp)):
+        return True
+    if isinstance(e, ast.Call):
+        nm = call_name(e) or ''
+        if nm in ('list', 'copy.copy', 'copy', 'sorted') and e.args:
+            return True
+        if isinstance(e.func, ast.Attribute) and e.func.attr == 'copy' and not e.args:
+            return True
+    if isinstance(e, ast.Subscript) and isinstance(e.slice, ast.Slice) and e.slice.lower is None and \
+            e.slice.upper is None and e.slice.step is None:
+        return True
+    if isinstance(e, ast.BinOp) and isinstance(e.op, ast.Add):
+        return _fresh_container(e.left) or _fresh_container(e.right)
+    return False
+
+
+def derived_graph_owns_mappings(ctx, rule='A11s'):
+    """F27: add_mapping appends in place to SupDSG._choice_mappings; a graph derived from another one (copy(),
+    applying a choice) therefore needs a list of its own - either the handing-over side builds a new list, or every
+    receiving side (constructor, in-place update) does."""
+    give = ctx.fn(f'{SUP}:SupDSG._mod_graph_adjust_kwargs')
+    handed = []
+    for f in unit_functions(ctx.prog, give):
+        for st in walk_fn(f):
+            if isinstance(st, ast.Assign) and any(
+                    isinstance(t, ast.Subscript) and isinstance(t.slice, ast.Constant) and
+                    t.slice.value == 'choice_mappings' for t in st.targets):
+                handed.append(expand_locals(f, st.value))
+    if not handed:
+        raise AnalysisError('SupDSG._mod_graph_adjust_kwargs no longer hands over choice_mappings')
+    giver_fresh = all(_fresh_container(e) for e in handed)
+    recv_fresh = True
+    for key in ('SupDSG.__init__', 'SupDSG._mod_graph_inplace'):
+        f = ctx.fn(f'{SUP}:{key}')
+        vals = [expand_locals(f, st.value) for st in assigns_to_attr(f, '_choice_mappings')
+                if getattr(st, 'value', None) is not None]
+        if not vals or not all(_fresh_container(v) for v in vals):
+            recv_fresh = False
+    ctx.ob(rule, fkey(give, rule, 'derived-graph-owns-mapping-list'), giver_fresh or recv_fresh, give.where,
+           'the list of choice mappings (appended to in place by add_mapping) that a derived SupDSG receives is a '
+           'new list: built where it is handed over, or by the constructor and the in-place update that receive it',
+           f'handed over: {[short(e) for e in handed]}')
+
+
 def check(ctx):
     # has_conditional_existence decides whether a mapping needs a `None` entry: recursive memoised graph functions
     # store answers only (a placeholder stored before the recursion answers every node of a derivation cycle)
@@ -652,11 +698,23 @@ def check(ctx):
     ctx.floor('A5', 9, 'resolve / initialise guards')
     ctx.floor('A6', 10, 'provenance of the applied option')
     sup_node_identity(ctx)
+    derived_graph_owns_mappings(ctx)
 
 
 from ..selftest import V  # noqa: E402
 
 VARIANTS = [
+    V('derived-sup-graph-shares-mapping-list', 'graph/sup/dsg.py',
+      [("        kwargs['choice_mappings'] = list(self._choice_mappings)", "        kwargs['choice_mappings'] = self._choice_mappings")],
+      key='derived-graph-owns-mapping-list'),
+    V('twin-mapping-list-copied-by-receivers', 'graph/sup/dsg.py',
+      [("        kwargs['choice_mappings'] = list(self._choice_mappings)", "        kwargs['choice_mappings'] = self._choice_mappings"),
+       ("= choice_mappings or []", "= list(choice_mappings or [])"),
+       ("            self._choice_mappings = kwargs['choice_mappings']", "            self._choice_mappings = kwargs['choice_mappings'][:]")],
+      expect='silent'),
+    V('twin-mapping-list-copied-via-local', 'graph/sup/dsg.py',
+      [("        kwargs['choice_mappings'] = list(self._choice_mappings)", "        own_mappings = [entry for entry in self._choice_mappings]\n        kwargs['choice_mappings'] = own_mappings")],
+      expect='silent'),
     V('placeholder-entry-in-recursive-memo', 'graph/traversal.py',
       [("        in_walk_back.add(base_node)\n", "        in_walk_back.add(base_node)\n        traversed[base_node] = False\n")],
       key='provisional-memo-entry'),
